@@ -40,6 +40,8 @@ REQ  == "request"          \* service_request_account
 FEEP == "feepool"          \* service_fee_collector (tax + slashed deposits)
 MOD  == "verif"            \* the harness-owned callback module
 BadNames == {"", "9bad"}   \* service names rejected by ValidateServiceName
+OSVC == "oracle-price"     \* the service name of the "oracle" module service (types/oracle_price.go)
+OPROV == "oracle"          \* its provider address (crypto.AddressHash("oracle"))
 PriceDenoms == {D, "btc"}  \* denoms with a positive supply (binding.go validatePricing)
 
 UsersOf(t) == DOMAIN t.bal \ {DEP, REQ, FEEP}
@@ -50,23 +52,36 @@ ReqId(c, n, i) == c \o "-" \o ToString(n) \o "-" \o ToString(i)
 NoEv == [name |-> "Init", who |-> "", svc |-> "", prov |-> "", provs |-> <<>>, ctx |-> "", req |-> "",
          amt |-> 0, price |-> 0, tStart |-> 0, tEnd |-> 0, tDisc |-> 4, vVol |-> 0, vDisc |-> 4,
          setp |-> FALSE, pdenom |-> "stake", qos |-> 0, timeout |-> 0, repeated |-> FALSE, freq |-> 0, total |-> 0,
-         thr |-> 0, paused0 |-> FALSE, okres |-> TRUE, to |-> "", dt |-> 1, rank |-> 0,
+         thr |-> 0, paused0 |-> FALSE, okres |-> TRUE, to |-> "", dt |-> 1, rank |-> 0, rn |-> 0, rd |-> 1,
          ok |-> TRUE, panic |-> FALSE, halt |-> FALSE, cbs |-> <<>>, scbs |-> <<>>]
 
 -----------------------------------------------------------------------------
 (* Results.  cbs: response-callback firings <<[ctx, batch, outs, err]>>,
    scbs: state-callback firings <<ctx>>, over: F4 overcharge of the step *)
-FailW(s, w) == [ok |-> FALSE, panic |-> FALSE, st |-> s, why |-> w, cbs |-> <<>>, scbs |-> <<>>, over |-> 0]
+FailW(s, w) == [ok |-> FALSE, panic |-> FALSE, st |-> s, why |-> w, cbs |-> <<>>, scbs |-> <<>>, over |-> EmptyF]
 Fail(s) == FailW(s, "rejected")
-Panic(s) == [ok |-> FALSE, panic |-> TRUE, st |-> s, why |-> "panic", cbs |-> <<>>, scbs |-> <<>>, over |-> 0]
-DoneC(s, c) == [ok |-> TRUE, panic |-> FALSE, st |-> s, why |-> "", cbs |-> c, scbs |-> <<>>, over |-> 0]
+Panic(s) == [ok |-> FALSE, panic |-> TRUE, st |-> s, why |-> "panic", cbs |-> <<>>, scbs |-> <<>>, over |-> EmptyF]
+DoneC(s, c) == [ok |-> TRUE, panic |-> FALSE, st |-> s, why |-> "", cbs |-> c, scbs |-> <<>>, over |-> EmptyF]
 Done(s) == DoneC(s, <<>>)
 
 -----------------------------------------------------------------------------
 (* Small helpers *)
-BalOf(s, a) == s.bal[a][D]
-Pay(s, from, to, n) ==
-  IF n <= 0 THEN s ELSE [s EXCEPT !.bal = Move(s.bal, from, to, (D :> n))]
+DenomsOf(t) == DOMAIN t.supply
+BalD(s, a, d) == s.bal[a][d]
+BalOf(s, a) == BalD(s, a, D)
+PayD(s, from, to, d, n) ==
+  IF n <= 0 THEN s ELSE [s EXCEPT !.bal = Move(s.bal, from, to, (d :> n))]
+Pay(s, from, to, n) == PayD(s, from, to, D, n)
+
+(* sdk.Coins: functions denom -> positive amount *)
+Coin(d, n) == IF n > 0 THEN (d :> n) ELSE EmptyF
+AddC(a, b) == Pos([d \in DOMAIN a \cup DOMAIN b |-> Amt(a, d) + Amt(b, d)])
+SubC(a, b) == Pos([d \in DOMAIN a |-> a[d] - Amt(b, d)])
+GeC(a, b) == \A d \in DOMAIN b : Amt(a, d) >= b[d]
+PayC(s, from, to, c) == [s EXCEPT !.bal = Move(s.bal, from, to, c)]
+CanPayC(s, a, c) == \A d \in DOMAIN c : d \in DOMAIN s.bal[a] /\ s.bal[a][d] >= c[d]
+(* f[k] += coins; empty entries are never stored *)
+AddToC(f, k, c) == IF c = EmptyF THEN f ELSE Put(f, k, AddC(Get(f, k, EmptyF), c))
 
 HasBind(s, svc, p) == svc \in DOMAIN s.bind /\ p \in DOMAIN s.bind[svc]
 PutBind(s, svc, p, b) ==
@@ -101,12 +116,19 @@ PricingOK(e) ==
   /\ e.price >= 0
   /\ e.tDisc = 4 \/ (e.tDisc \in 1..3 /\ e.tStart >= 0 /\ e.tEnd > e.tStart)
   /\ e.vDisc = 4 \/ (e.vDisc \in 1..3 /\ e.vVol >= 1)
-(* A price in another denom needs the oracle's exchange rate
-   (oracle_price.go GetExchangeRate).  No feed exists in the universe of this
-   specification, so every such lookup fails; GetMinDeposit skips the lookup
-   for a zero price. *)
+(* A price in another denom needs the exchange rate of the "oracle" module
+   service (oracle_price.go GetExchangeRate).  The harness owns that module
+   service: s.rate = [n, d] is the rate n/d it answers with (d in {1,2,4}: every
+   product below is exact), n = 0 means no usable rate ("feed not found"; a zero
+   rate is refused by the code as well).  GetMinDeposit skips the lookup for a
+   zero price. *)
 NeedsRate(pr) == pr.pdenom # D
-MinDepErr(pr) == pr.pdenom # D /\ pr.price # 0
+NoRate(s) == s.rate.n = 0
+MinDepErr(s, pr) == pr.pdenom # D /\ pr.price # 0 /\ NoRate(s)
+(* binding.go GetMinDeposit: the price in the base denom, at least 1 *)
+BasePrice(s, pr) ==
+  IF pr.pdenom = D \/ pr.price = 0 THEN pr.price
+  ELSE Max(1, (pr.price * s.rate.n) \div s.rate.d)
 
 PricingOf(e) ==
   [price |-> e.price, pdenom |-> e.pdenom,
@@ -131,14 +153,15 @@ DoBind(s, e) ==
   LET o == e.who
       p == e.prov IN
   IF e.svc \in BadNames \/ e.qos <= 0 \/ ~PricingOK(e) THEN FailW(s, "validate_basic")
+  ELSE IF e.svc = OSVC THEN FailW(s, "module_service")     \* msg_server.go: ErrBindModuleService
   ELSE IF e.svc \notin DOMAIN s.defs THEN Fail(s)
   ELSE IF HasBind(s, e.svc, p) THEN Fail(s)
   ELSE IF p \in DOMAIN s.owner /\ s.owner[p] # o THEN Fail(s)
   ELSE IF e.amt <= 0 THEN Fail(s)                       \* validateDeposit: one coin of the base denom
   ELSE IF e.qos > s.params.maxTimeout THEN Fail(s)
   ELSE IF e.pdenom \notin PriceDenoms THEN Fail(s)         \* validatePricing
-  ELSE IF MinDepErr(PricingOf(e)) THEN FailW(s, "no_rate")
-  ELSE IF e.amt < MinDep(s, e.price) THEN Fail(s)
+  ELSE IF MinDepErr(s, PricingOf(e)) THEN FailW(s, "no_rate")
+  ELSE IF e.amt < MinDep(s, BasePrice(s, PricingOf(e))) THEN Fail(s)
   ELSE IF BalOf(s, o) < e.amt THEN Fail(s)
   ELSE
     LET b == [deposit |-> e.amt, available |-> TRUE, disabledAt |-> 0, owner |-> o, qos |-> e.qos]
@@ -164,8 +187,8 @@ DoUpdateBinding(s, e) ==
           updated == e.qos # 0 \/ add > 0 \/ e.setp
       IN
       IF e.setp /\ e.pdenom \notin PriceDenoms THEN Fail(s)
-      ELSE IF b.available /\ updated /\ MinDepErr(b2) THEN FailW(s, "no_rate")
-      ELSE IF b.available /\ updated /\ b2.deposit < MinDep(s, b2.price) THEN Fail(s)
+      ELSE IF b.available /\ updated /\ MinDepErr(s, b2) THEN FailW(s, "no_rate")
+      ELSE IF b.available /\ updated /\ b2.deposit < MinDep(s, BasePrice(s, b2)) THEN Fail(s)
       ELSE IF BalOf(s, e.who) < add THEN Fail(s)
       ELSE Done(Pay(PutBind(s, e.svc, e.prov, b2), e.who, DEP, add))
 
@@ -193,8 +216,8 @@ DoEnable(s, e) ==
         add == IF e.amt > 0 THEN e.amt ELSE 0 IN
     IF e.who # b.owner THEN FailW(s, "unauthorized")
     ELSE IF b.available THEN Fail(s)
-    ELSE IF MinDepErr(b) THEN FailW(s, "no_rate")
-    ELSE IF b.deposit + add < MinDep(s, b.price) THEN Fail(s)
+    ELSE IF MinDepErr(s, b) THEN FailW(s, "no_rate")
+    ELSE IF b.deposit + add < MinDep(s, BasePrice(s, b)) THEN Fail(s)
     ELSE IF BalOf(s, e.who) < add THEN Fail(s)
     ELSE Done(Pay(PutBind(s, e.svc, e.prov,
                           [b EXCEPT !.deposit = @ + add, !.available = TRUE, !.disabledAt = 0]),
@@ -240,8 +263,37 @@ Create(s, e, mod, thr, state0) ==
         s1 == [s EXCEPT !.seq = @ + 1, !.ctx = Put(s.ctx, id, c)]
     IN Done(IF state0 = "running" THEN AddNew(s1, id, s.h) ELSE s1)
 
+(* msg_server.go CallService for the service of a registered module service +
+   module_service.go RequestModuleService: the context is created with the
+   module's provider, timeout 1, not repeated; the request is issued, answered
+   by the module synchronously and the context completed in the same message.
+   Nobody can bind the module service (DoBind), so no binding is found: nothing
+   is charged and the fee is empty.  The handler finally stores the context
+   copy it read BEFORE the request was issued (state COMPLETED, batch counter
+   0): the stored batch fields are those of the fresh context.  The new-batch
+   entry queued by CreateRequestContext is dropped by the end-blocker; context,
+   request and response stay in the store for ever (no expiration entry). *)
+CallModule(s, e) ==
+  LET e1 == [e EXCEPT !.provs = <<OPROV>>, !.timeout = 1, !.repeated = FALSE, !.freq = 0, !.total = 0]
+      r == Create(s, e1, "", 0, "running")
+  IN
+  IF ~r.ok THEN r
+  ELSE
+    LET id == CtxId(s.seq + 1)
+        rid == ReqId(id, 1, 0)
+        s1 == r.st
+        s2 == [s1 EXCEPT
+                 !.ctx[id].state = "completed",
+                 !.req = Put(s1.req, rid, [ctx |-> id, batch |-> 1, provider |-> OPROV, fee |-> 0, fdenom |-> D,
+                                           reqH |-> s.h, expH |-> s.h + 1, idx |-> 0]),
+                 !.resp = Put(s1.resp, rid, [ctx |-> id, batch |-> 1, provider |-> OPROV, consumer |-> e.who,
+                                             out |-> ~NoRate(s)])]
+    IN Done(IncVol(s2, OSVC, OPROV, e.who))
+
 DoCall(s, e) ==
-  IF ~ValidRequest(e) THEN FailW(s, "validate_basic") ELSE Create(s, e, "", 0, "running")
+  IF ~ValidRequest(e) THEN FailW(s, "validate_basic")
+  ELSE IF e.svc = OSVC THEN CallModule(s, e)
+  ELSE Create(s, e, "", 0, "running")
 
 DoModCall(s, e) ==
   IF ~ValidRequest(e) THEN FailW(s, "validate_basic")
@@ -332,15 +384,15 @@ DoRespond(s, e) ==
     ELSE
       LET c == s.ctx[r.ctx]
           tax == (r.fee * s.params.taxNum) \div s.params.taxDen
-          net == r.fee - tax
+          net == Coin(r.fdenom, r.fee - tax)
           p == r.provider
           o == Get(s.owner, p, "")
       IN
-      IF BalOf(s, REQ) < tax THEN FailW(s, "escrow_short")
+      IF BalD(s, REQ, r.fdenom) < tax THEN FailW(s, "escrow_short")
       ELSE
-        LET s1 == [Pay(s, REQ, FEEP, tax) EXCEPT
-                     !.earned = AddTo(s.earned, p, net),
-                     !.ownerEarned = AddTo(s.ownerEarned, o, net),
+        LET s1 == [PayD(s, REQ, FEEP, r.fdenom, tax) EXCEPT
+                     !.earned = AddToC(s.earned, p, net),
+                     !.ownerEarned = AddToC(s.ownerEarned, o, net),
                      !.resp = Put(s.resp, e.req, [ctx |-> r.ctx, batch |-> r.batch, provider |-> p,
                                                   consumer |-> c.consumer, out |-> e.okres]),
                      !.active = @ \ {e.req},
@@ -358,17 +410,42 @@ DoWithdraw(s, e) ==
   IF e.prov = "" THEN Fail(s)
   ELSE IF ~(e.prov \in DOMAIN s.owner /\ s.owner[e.prov] = e.who) THEN FailW(s, "unauthorized")
   ELSE
-    LET own == Get(s.ownerEarned, e.who, 0)
-        earned == Get(s.earned, e.prov, 0)
+    LET own == Get(s.ownerEarned, e.who, EmptyF)
+        earned == Get(s.earned, e.prov, EmptyF)
         to == Get(s.withdraw, e.who, e.who)
+        left == SubC(own, earned)
     IN
-    IF own < earned THEN Panic(s)                       \* Coins.Sub panics
-    ELSE IF BalOf(s, REQ) < earned THEN FailW(s, "escrow_short")
+    IF earned # own /\ ~GeC(own, earned) THEN Panic(s)   \* Coins.Sub panics
+    ELSE IF ~CanPayC(s, REQ, earned) THEN FailW(s, "escrow_short")
     ELSE IF to \notin DOMAIN s.bal THEN Fail(s)
-    ELSE Done([Pay(s, REQ, to, earned) EXCEPT
+    ELSE Done([PayC(s, REQ, to, earned) EXCEPT
                  !.earned = Del(s.earned, e.prov),
+                 \* DeleteOwnerEarnedFees only when the two tallies are equal; otherwise
+                 \* SetOwnerEarnedFees(own - earned) writes the denoms that are still
+                 \* positive and leaves the stored entry of a denom that dropped to zero
+                 \* as it was (finding F29)
                  !.ownerEarned = IF own = earned THEN Del(s.ownerEarned, e.who)
-                                 ELSE Put(s.ownerEarned, e.who, own - earned)])
+                                 ELSE Put(s.ownerEarned, e.who,
+                                          [d \in DOMAIN own |-> IF d \in DOMAIN left THEN left[d] ELSE own[d]])])
+
+(* fees.go: WithdrawEarnedFees with an empty provider: everything the owner's
+   providers earned.  Not reachable through MsgWithdrawEarnedFees (see above);
+   the harness calls the keeper as a module would (event ModWithdrawAll). *)
+DoWithdrawAll(s, e) ==
+  LET own == Get(s.ownerEarned, e.who, EmptyF)
+      to == Get(s.withdraw, e.who, e.who)
+      mine == {x[2] : x \in {y \in s.ownerProv : y[1] = e.who}}
+  IN
+  IF ~CanPayC(s, REQ, own) THEN FailW(s, "escrow_short")
+  ELSE IF to \notin DOMAIN s.bal THEN Fail(s)
+  ELSE Done([PayC(s, REQ, to, own) EXCEPT
+               !.earned = [p \in DOMAIN s.earned \ mine |-> s.earned[p]],
+               !.ownerEarned = Del(s.ownerEarned, e.who)])
+
+(* the harness' exchange-rate module service: environment *)
+DoSetRate(s, e) ==
+  IF e.rn < 0 \/ e.rd \notin {1, 2, 4} THEN Fail(s)
+  ELSE Done([s EXCEPT !.rate = [n |-> e.rn, d |-> e.rd]])
 
 -----------------------------------------------------------------------------
 (***************************************************************************)
@@ -387,13 +464,13 @@ ExpireReq(s, rid) ==
               LET b == s.bind[c.svc][p]
                   sl == (b.deposit * s.params.slashNum) \div s.params.slashDen
                   dep == b.deposit - sl
-                  off == b.available /\ (MinDepErr(b) \/ dep < MinDep(s, b.price))
+                  off == b.available /\ (MinDepErr(s, b) \/ dep < MinDep(s, BasePrice(s, b)))
               IN IF BalOf(s, DEP) < sl THEN s
                  ELSE PutBind(Pay(s, DEP, FEEP, sl), c.svc, p,
                               [b EXCEPT !.deposit = dep,
                                         !.available = IF off THEN FALSE ELSE @,
                                         !.disabledAt = IF off THEN s.now ELSE @])
-      s2 == IF BalOf(s1, REQ) < r.fee THEN s1 ELSE Pay(s1, REQ, c.consumer, r.fee)
+      s2 == IF BalD(s1, REQ, r.fdenom) < r.fee THEN s1 ELSE PayD(s1, REQ, c.consumer, r.fdenom, r.fee)
   IN [s2 EXCEPT !.active = @ \ {rid}, !.activeB = {x \in @ : x[1] # rid}]
 
 RECURSIVE ExpireReqs(_, _)
@@ -428,54 +505,68 @@ ExpireBatch(s, id) ==
 (* invocation.go: FilterServiceProviders — the providers of the context that
    are bound, available, fast enough and not above the fee cap, in the
    context's order *)
+(* oracle_price.go GetExchangedPrice: the discounted price in the base denom,
+   TruncateInt(price * dT * dV * rate) *)
+Exchanged(s, b, vol) ==
+  IF b.pdenom = D THEN FeeOf(b, s.now, vol)
+  ELSE (b.price * DiscT(b, s.now) * DiscV(b, vol) * s.rate.n) \div (16 * s.rate.d)
+
 Eligible(s, c) ==
   SelectSeq(c.providers,
             LAMBDA p : /\ HasBind(s, c.svc, p)
                        /\ s.bind[c.svc][p].available
                        /\ s.bind[c.svc][p].qos <= c.timeout
-                       /\ FeeOf(s.bind[c.svc][p], s.now, VolOf(s, c.svc, p, c.consumer)) <= c.feeCap)
+                       /\ Exchanged(s, s.bind[c.svc][p], VolOf(s, c.svc, p, c.consumer)) <= c.feeCap)
 
 SumSeq(q) == SumOver(q, DOMAIN q)
+(* coins of a sequence of amounts with their denoms *)
+CoinsOfSeq(amts, dens) ==
+  Pos([d \in Range(dens) |->
+         SumOver([i \in DOMAIN amts |-> IF dens[i] = d THEN amts[i] ELSE 0], DOMAIN amts)])
 
 (* FilterServiceProviders fails as soon as it meets a usable provider whose
-   price needs an exchange rate *)
+   price needs an exchange rate that does not exist *)
 RateError(s, c) ==
-  \E i \in DOMAIN c.providers :
-    LET p == c.providers[i] IN
-    /\ HasBind(s, c.svc, p) /\ s.bind[c.svc][p].available
-    /\ s.bind[c.svc][p].qos <= c.timeout /\ NeedsRate(s.bind[c.svc][p])
+  /\ NoRate(s)
+  /\ \E i \in DOMAIN c.providers :
+       LET p == c.providers[i] IN
+       /\ HasBind(s, c.svc, p) /\ s.bind[c.svc][p].available
+       /\ s.bind[c.svc][p].qos <= c.timeout /\ NeedsRate(s.bind[c.svc][p])
 
 (* newRequestBatchHandler.  Returns [st, scbs, over]. *)
 NewBatch(s, id) ==
-  IF id \notin DOMAIN s.ctx THEN [st |-> DelNew(s, id, s.h), scbs |-> <<>>, over |-> 0]
+  IF id \notin DOMAIN s.ctx THEN [st |-> DelNew(s, id, s.h), scbs |-> <<>>, over |-> EmptyF]
   ELSE
     LET c == s.ctx[id] IN
-    IF c.state # "running" THEN [st |-> DelNew(s, id, s.h), scbs |-> <<>>, over |-> 0]
+    IF c.state # "running" THEN [st |-> DelNew(s, id, s.h), scbs |-> <<>>, over |-> EmptyF]
     \* no exchange rate (fix 6da0f9d, was finding F20): DeleteNewRequestBatch, then
     \* OnRequestContextPaused exactly as for insufficient balances
     ELSE IF RateError(s, c)
     THEN [st |-> DelNew([s EXCEPT !.ctx[id].bstate = "completed", !.ctx[id].state = "paused"], id, s.h),
-          scbs |-> IF c.module # "" THEN <<id>> ELSE <<>>, over |-> 0]
+          scbs |-> IF c.module # "" THEN <<id>> ELSE <<>>, over |-> EmptyF]
     ELSE
       LET el == Eligible(s, c)
           fees == [i \in DOMAIN el |-> FeeOf(s.bind[c.svc][el[i]], s.now, VolOf(s, c.svc, el[i], c.consumer))]
           raws == [i \in DOMAIN el |-> s.bind[c.svc][el[i]].price]
+          dens == [i \in DOMAIN el |-> s.bind[c.svc][el[i]].pdenom]
+          feeC == CoinsOfSeq(fees, dens)
           \* F4: the consumer is charged the sum of the undiscounted prices
-          charge == IF FixF4 THEN SumSeq(fees) ELSE SumSeq(raws)
+          charge == IF FixF4 THEN feeC ELSE CoinsOfSeq(raws, dens)
           n == c.batch + 1
       IN
       IF Len(el) > 0 /\ Len(el) >= c.threshold
       THEN
-        IF BalOf(s, c.consumer) < charge
+        IF ~CanPayC(s, c.consumer, charge)
         THEN \* OnRequestContextPaused
           [st |-> DelNew([s EXCEPT !.ctx[id].bstate = "completed", !.ctx[id].state = "paused"], id, s.h),
-           scbs |-> IF c.module # "" THEN <<id>> ELSE <<>>, over |-> 0]
+           scbs |-> IF c.module # "" THEN <<id>> ELSE <<>>, over |-> EmptyF]
         ELSE \* DeductServiceFees, InitiateRequests, AddRequestBatchExpiration
           LET newReq == [i \in DOMAIN el |->
                            [ctx |-> id, batch |-> n, provider |-> el[i], fee |-> fees[i],
+                            fdenom |-> IF fees[i] = 0 THEN D ELSE dens[i],
                             reqH |-> s.h, expH |-> s.h + c.timeout, idx |-> i - 1]]
               ids == [i \in DOMAIN el |-> ReqId(id, n, i - 1)]
-              s1 == Pay(s, c.consumer, REQ, charge)
+              s1 == PayC(s, c.consumer, REQ, charge)
               s2 == [s1 EXCEPT
                        !.req = [r \in DOMAIN s1.req \cup Range(ids) |->
                                   IF r \in Range(ids)
@@ -485,11 +576,11 @@ NewBatch(s, id) ==
                        !.ctx[id] = [c EXCEPT !.batch = n, !.bstate = "running", !.respCount = 0,
                                              !.reqCount = Len(el), !.bthreshold = c.threshold]]
           IN [st |-> DelNew(AddExp(s2, id, s.h + c.timeout), id, s.h), scbs |-> <<>>,
-              over |-> charge - SumSeq(fees)]
+              over |-> SubC(charge, feeC)]
       ELSE \* SkipCurrentRequestBatch
         LET s1 == [s EXCEPT !.ctx[id] = [c EXCEPT !.batch = n, !.bstate = "running", !.respCount = 0,
                                                   !.reqCount = 0, !.bthreshold = c.threshold]]
-        IN [st |-> DelNew(AddExp(s1, id, s.h + c.timeout), id, s.h), scbs |-> <<>>, over |-> 0]
+        IN [st |-> DelNew(AddExp(s1, id, s.h + c.timeout), id, s.h), scbs |-> <<>>, over |-> EmptyF]
 
 RankOf(s, id) == IF id \in DOMAIN s.ctx THEN s.ctx[id].rank ELSE 0
 First(s, ids) == CHOOSE x \in ids : \A y \in ids : RankOf(s, x) <= RankOf(s, y)
@@ -506,7 +597,7 @@ FoldNew(s, ids, scbs, over) ==
   IF ids = {} THEN [st |-> s, scbs |-> scbs, over |-> over]
   ELSE LET id == First(s, ids)
            r == NewBatch(s, id)
-       IN FoldNew(r.st, ids \ {id}, scbs \o r.scbs, over + r.over)
+       IN FoldNew(r.st, ids \ {id}, scbs \o r.scbs, AddC(over, r.over))
 
 DueIn(q, h) == {x[2] : x \in {y \in q : y[1] = h}}
 
@@ -514,10 +605,10 @@ DueIn(q, h) == {x[2] : x \in {y \in q : y[1] = h}}
    phase adds for this very height are picked up by the second) *)
 DoEndBlock(s, e) ==
   LET r1 == FoldExp(s, DueIn(s.expQ, s.h), <<>>)
-      r2 == FoldNew(r1.st, DueIn(r1.st.newQ, s.h), <<>>, 0)
+      r2 == FoldNew(r1.st, DueIn(r1.st.newQ, s.h), <<>>, EmptyF)
   IN [ok |-> TRUE, panic |-> FALSE,
       st |-> [r2.st EXCEPT !.h = @ + 1, !.now = @ + e.dt],
-      why |-> IF r2.over > 0 THEN "f4_discount" ELSE "",
+      why |-> IF r2.over # EmptyF THEN "f4_discount" ELSE "",
       cbs |-> r1.cbs, scbs |-> r2.scbs, over |-> r2.over]
 
 (* Dispatch on an event record: the deterministic step function *)
@@ -541,6 +632,8 @@ Apply(s, e) ==
     [] e.name = "ModKill"       -> DoKill(s, e, FALSE)
     [] e.name = "ModUpdate"     -> DoUpdate(s, e, FALSE)
     [] e.name = "Withdraw"      -> DoWithdraw(s, e)
+    [] e.name = "ModWithdrawAll" -> DoWithdrawAll(s, e)
+    [] e.name = "SetRate"       -> DoSetRate(s, e)
     [] e.name = "EndBlock"      -> DoEndBlock(s, e)
     [] OTHER -> Fail(s)
 
@@ -572,14 +665,32 @@ ListPrice(s, t, r) ==
   LET svc == SvcOfReq(t, r)
       p == t.req[r].provider
   IN IF HasBind(s, svc, p) THEN s.bind[svc][p].price ELSE t.req[r].fee
+(* the denom the request was priced (and, under F4, charged) in *)
+PriceDenom(s, t, r) ==
+  LET svc == SvcOfReq(t, r)
+      p == t.req[r].provider
+  IN IF HasBind(s, svc, p) THEN s.bind[svc][p].pdenom ELSE t.req[r].fdenom
 
-F4Step(s, e, t) ==
+F4Step(s, e, t, d) ==
   IF e.name = "EndBlock"
-  THEN SumOver([r \in NewReqs(s, t) |-> ListPrice(s, t, r) - t.req[r].fee], NewReqs(s, t))
+  THEN LET rs == {r \in NewReqs(s, t) : PriceDenom(s, t, r) = d} IN
+       SumOver([r \in rs |-> ListPrice(s, t, r) - t.req[r].fee], rs)
   ELSE 0
 
+(* F29 pattern: a provider-scoped withdrawal brings denom d of the owner tally
+   to zero while another denom stays, so SetOwnerEarnedFees never rewrites d *)
+F29Now(s, e, o, d) ==
+  /\ e.name = "Withdraw" /\ e.ok /\ e.who = o
+  /\ Get(s.ownerEarned, o, EmptyF) # Get(s.earned, e.prov, EmptyF)
+  /\ Amt(Get(s.earned, e.prov, EmptyF), d) > 0
+  /\ Amt(Get(s.ownerEarned, o, EmptyF), d) = Amt(Get(s.earned, e.prov, EmptyF), d)
+
+(* the request a module-service call creates and answers in one message *)
+ModuleAnswered(s, e) ==
+  IF e.name = "Call" /\ e.ok /\ e.svc = OSVC THEN {ReqId(CtxId(s.seq + 1), 1, 0)} ELSE {}
+
 GhostInit == [ans |-> EmptyF, exp |-> EmptyF, batchAt |-> EmptyF, modified |-> EmptyF,
-              intr |-> EmptyF, cbn |-> EmptyF, expd |-> EmptyF, f4 |-> 0]
+              intr |-> EmptyF, cbn |-> EmptyF, expd |-> EmptyF, f4 |-> EmptyF, f29 |-> EmptyF]
 
 CountCbs(e, id, n) == Cardinality({i \in DOMAIN e.cbs : e.cbs[i].ctx = id /\ e.cbs[i].batch = n})
 
@@ -590,7 +701,8 @@ GhostStep(g, s, e, t) ==
       bump(f, id, n, k) == IF k = 0 THEN f ELSE Put(f, n, Get(f, n, 0) + k)
   IN
   [ans |-> [r \in rs |-> Get(g.ans, r, 0)
-                         + (IF e.name = "Respond" /\ e.ok /\ e.req = r THEN 1 ELSE 0)],
+                         + (IF e.name = "Respond" /\ e.ok /\ e.req = r THEN 1 ELSE 0)
+                         + (IF r \in ModuleAnswered(s, e) THEN 1 ELSE 0)],
    exp |-> [r \in rs |-> Get(g.exp, r, 0) + (IF r \in gone THEN 1 ELSE 0)],
    batchAt |-> [id \in cs |->
                   IF Issued(s, t, id)
@@ -610,7 +722,11 @@ GhostStep(g, s, e, t) ==
                IF Completes(s, t, id)
                THEN bump(Get(g.expd, id, EmptyF), id, s.ctx[id].batch, 1)
                ELSE Get(g.expd, id, EmptyF)],
-   f4 |-> g.f4 + F4Step(s, e, t)]
+   f4 |-> [d \in DenomsOf(t) |-> Amt(g.f4, d) + F4Step(s, e, t, d)],
+   f29 |-> [o \in DOMAIN g.f29 \cup (IF e.name = "Withdraw" /\ e.ok THEN {e.who} ELSE {}) |->
+              IF e.name = "ModWithdrawAll" /\ e.ok /\ e.who = o THEN EmptyF
+              ELSE [d \in DenomsOf(t) |->
+                      Amt(Get(g.f29, o, EmptyF), d) + (IF F29Now(s, e, o, d) THEN Amt(Get(s.earned, e.prov, EmptyF), d) ELSE 0)]]]
 
 -----------------------------------------------------------------------------
 (***************************************************************************)
@@ -618,61 +734,81 @@ GhostStep(g, s, e, t) ==
 (* clauses take (s, e, t) = pre-state, event with result, post-state, and   *)
 (* g = the ghost state AFTER the step.                                      *)
 (***************************************************************************)
-Delta(s, t, a) == BalOf(t, a) - BalOf(s, a)
+DeltaD(s, t, a, d) == BalD(t, a, d) - BalD(s, a, d)
+Delta(s, t, a) == DeltaD(s, t, a, D)
+(* every (account, denom) pair except those in X is unchanged *)
+OthersSame(s, t, X) ==
+  \A a \in DOMAIN t.bal : \A d \in DenomsOf(t) : (<<a, d>> \notin X) => DeltaD(s, t, a, d) = 0
+EarnedOf(t, p, d) == Amt(Get(t.earned, p, EmptyF), d)
+OwnerEarnedOf(t, o, d) == Amt(Get(t.ownerEarned, o, EmptyF), d)
 AllBindings(t) == {<<svc, p>> : svc \in DOMAIN t.bind, p \in UNION {DOMAIN t.bind[x] : x \in DOMAIN t.bind}}
 Bindings(t) == {b \in AllBindings(t) : HasBind(t, b[1], b[2])}
 DepositSum(t) == SumOver([b \in Bindings(t) |-> t.bind[b[1]][b[2]].deposit], Bindings(t))
-Liabilities(t) ==
-  SumOver([r \in t.active |-> IF r \in DOMAIN t.req THEN t.req[r].fee ELSE 0], t.active) + SumF(t.earned)
+Liabilities(t, d) ==
+  LET rs == {r \in t.active : r \in DOMAIN t.req /\ t.req[r].fdenom = d} IN
+  SumOver([r \in rs |-> t.req[r].fee], rs)
+  + SumOver([p \in DOMAIN t.earned |-> EarnedOf(t, p, d)], DOMAIN t.earned)
 
-(* C07: deposit escrow = sum of the recorded deposits *)
-C07_DepositEscrow(t) == BalOf(t, DEP) = DepositSum(t)
+(* C07: deposit escrow = sum of the recorded deposits (deposits are in the base
+   denom; the escrow holds nothing else) *)
+C07_DepositEscrow(t) ==
+  /\ BalOf(t, DEP) = DepositSum(t)
+  /\ \A d \in DenomsOf(t) \ {D} : BalD(t, DEP, d) = 0
 
 (* C07: request escrow = fees of the requests awaiting a response + earned fees *)
-C07_RequestEscrow(t) == BalOf(t, REQ) = Liabilities(t)
+C07_RequestEscrow(t) == \A d \in DenomsOf(t) : BalD(t, REQ, d) = Liabilities(t, d)
 (* ... modulo finding F4: exactly the recorded discount overcharges are stuck *)
-C07_RequestEscrow_ModF4(t, g) == BalOf(t, REQ) = Liabilities(t) + g.f4
+C07_RequestEscrow_ModF4(t, g) ==
+  \A d \in DenomsOf(t) : BalD(t, REQ, d) = Liabilities(t, d) + Amt(g.f4, d)
 
-(* C07: provider-side and owner-side tallies agree *)
-C07_OwnerTally(t) ==
+(* C07: provider-side and owner-side tallies agree.  relax = TRUE: modulo
+   finding F29 (a denom of the owner tally that a provider-scoped withdrawal
+   brings to zero keeps its old stored value): the owner tally may exceed the
+   providers' sum by what the ghost recorded as left behind *)
+OwnerTallyX(t, g, relax) ==
   /\ DOMAIN t.earned \subseteq DOMAIN t.owner
-  /\ \A o \in DOMAIN t.ownerEarned \cup Range(t.owner) :
+  /\ \A o \in DOMAIN t.ownerEarned \cup Range(t.owner) : \A d \in DenomsOf(t) :
        LET ps == {p \in DOMAIN t.owner : t.owner[p] = o} IN
-       Get(t.ownerEarned, o, 0) = SumOver([p \in ps |-> Get(t.earned, p, 0)], ps)
+       OwnerEarnedOf(t, o, d) = SumOver([p \in ps |-> EarnedOf(t, p, d)], ps)
+                                + (IF relax THEN Amt(Get(g.f29, o, EmptyF), d) ELSE 0)
+C07_OwnerTally(t) == OwnerTallyX(t, [f29 |-> EmptyF], FALSE)
+C07_OwnerTally_ModF29(t, g) == OwnerTallyX(t, g, TRUE)
 
 (* C07: in the end-blocker every account pays exactly the fees recorded on the
    requests issued for it and gets back exactly the fees of its requests that
    expire *)
-Refunds(s, e, t, a) ==
-  LET rs == {r \in ExpiredNow(s, e, t) : r \in DOMAIN s.req /\ ConsOfReq(s, r) = a} IN
+Refunds(s, e, t, a, d) ==
+  LET rs == {r \in ExpiredNow(s, e, t) : r \in DOMAIN s.req /\ ConsOfReq(s, r) = a /\ s.req[r].fdenom = d} IN
   SumOver([r \in rs |-> s.req[r].fee], rs)
-Charges(s, t, a) ==
-  LET rs == {r \in NewReqs(s, t) : ConsOfReq(t, r) = a} IN
+Charges(s, t, a, d) ==
+  LET rs == {r \in NewReqs(s, t) : ConsOfReq(t, r) = a /\ t.req[r].fdenom = d} IN
   SumOver([r \in rs |-> t.req[r].fee], rs)
-Overcharge(s, t, a) ==
-  LET rs == {r \in NewReqs(s, t) : ConsOfReq(t, r) = a} IN
+Overcharge(s, t, a, d) ==
+  LET rs == {r \in NewReqs(s, t) : ConsOfReq(t, r) = a /\ PriceDenom(s, t, r) = d} IN
   SumOver([r \in rs |-> ListPrice(s, t, r) - t.req[r].fee], rs)
 
 C07_Charge(s, e, t) ==
   (e.name = "EndBlock") =>
-    \A a \in UsersOf(t) : Delta(s, t, a) = Refunds(s, e, t, a) - Charges(s, t, a)
+    \A a \in UsersOf(t) : \A d \in DenomsOf(t) :
+      DeltaD(s, t, a, d) = Refunds(s, e, t, a, d) - Charges(s, t, a, d)
 C07_Charge_ModF4(s, e, t) ==
   (e.name = "EndBlock") =>
-    \A a \in UsersOf(t) :
-      Delta(s, t, a) = Refunds(s, e, t, a) - Charges(s, t, a) - Overcharge(s, t, a)
+    \A a \in UsersOf(t) : \A d \in DenomsOf(t) :
+      DeltaD(s, t, a, d) = Refunds(s, e, t, a, d) - Charges(s, t, a, d) - Overcharge(s, t, a, d)
 
 (* C07: an answered request's fee goes to the provider minus the tax, the tax
    to the fee pool *)
 C07_Answer(s, e, t) ==
   (e.name = "Respond" /\ e.ok /\ e.req \in DOMAIN s.req) =>
     LET r == s.req[e.req]
+        fd == r.fdenom
         tax == (r.fee * s.params.taxNum) \div s.params.taxDen
-    IN /\ Get(t.earned, r.provider, 0) - Get(s.earned, r.provider, 0) = r.fee - tax
-       /\ \A p \in (DOMAIN s.earned \cup DOMAIN t.earned) \ {r.provider} :
-            Get(t.earned, p, 0) = Get(s.earned, p, 0)
-       /\ Delta(s, t, FEEP) = tax
-       /\ Delta(s, t, REQ) = 0 - tax
-       /\ \A a \in UsersOf(t) \cup {DEP} : Delta(s, t, a) = 0
+    IN /\ EarnedOf(t, r.provider, fd) - EarnedOf(s, r.provider, fd) = r.fee - tax
+       /\ \A p \in DOMAIN s.earned \cup DOMAIN t.earned : \A d \in DenomsOf(t) :
+            (p # r.provider \/ d # fd) => EarnedOf(t, p, d) = EarnedOf(s, p, d)
+       /\ DeltaD(s, t, FEEP, fd) = tax
+       /\ DeltaD(s, t, REQ, fd) = 0 - tax
+       /\ OthersSame(s, t, {<<FEEP, fd>>, <<REQ, fd>>})
 
 (* C07: expiry slashes floor(deposit * fraction) per expired request from the
    deposit escrow to the fee pool (refunds are in C07_Charge) *)
@@ -694,19 +830,29 @@ C07_Expire(s, e, t) ==
                  SlashN(s.bind[b[1]][b[2]].deposit, hit(b), s.params.slashNum, s.params.slashDen)
        /\ Delta(s, t, DEP) = 0 - slashed
        /\ Delta(s, t, FEEP) = slashed
+       /\ \A d \in DenomsOf(t) \ {D} : DeltaD(s, t, DEP, d) = 0 /\ DeltaD(s, t, FEEP, d) = 0
 
-(* C07: a withdrawal pays exactly the deleted tallies to the withdraw address *)
-C07_Withdraw(s, e, t) ==
+(* C07: a withdrawal pays exactly the deleted tallies to the withdraw address.
+   relax = TRUE: modulo F29, the owner-side entry of a denom that reaches zero
+   may keep its old value *)
+WithdrawX(s, e, t, relax) ==
   (e.name = "Withdraw" /\ e.ok) =>
-    LET paid == Get(s.earned, e.prov, 0)
-        to == Get(s.withdraw, e.who, e.who)
-    IN /\ e.prov \notin DOMAIN t.earned
-       /\ Get(t.ownerEarned, e.who, 0) = Get(s.ownerEarned, e.who, 0) - paid
-       /\ \A p \in (DOMAIN s.earned \cup DOMAIN t.earned) \ {e.prov} :
-            Get(t.earned, p, 0) = Get(s.earned, p, 0)
-       /\ Delta(s, t, REQ) = 0 - paid
-       /\ to \in DOMAIN t.bal /\ Delta(s, t, to) = paid
-       /\ \A a \in DOMAIN t.bal \ {REQ, to} : Delta(s, t, a) = 0
+    LET to == Get(s.withdraw, e.who, e.who) IN
+    /\ e.prov \notin DOMAIN t.earned
+    /\ to \in DOMAIN t.bal
+    /\ \A p \in (DOMAIN s.earned \cup DOMAIN t.earned) \ {e.prov} : \A d \in DenomsOf(t) :
+         EarnedOf(t, p, d) = EarnedOf(s, p, d)
+    /\ \A d \in DenomsOf(t) :
+         LET paid == EarnedOf(s, e.prov, d) IN
+         /\ \/ OwnerEarnedOf(t, e.who, d) = OwnerEarnedOf(s, e.who, d) - paid
+            \/ /\ relax /\ paid > 0 /\ OwnerEarnedOf(s, e.who, d) = paid
+               /\ OwnerEarnedOf(t, e.who, d) = paid
+               /\ Get(s.ownerEarned, e.who, EmptyF) # Get(s.earned, e.prov, EmptyF)
+         /\ DeltaD(s, t, REQ, d) = 0 - paid
+         /\ (to # REQ) => DeltaD(s, t, to, d) = paid
+    /\ OthersSame(s, t, {<<REQ, d>> : d \in DenomsOf(t)} \cup {<<to, d>> : d \in DenomsOf(t)})
+C07_Withdraw(s, e, t) == WithdrawX(s, e, t, FALSE)
+C07_Withdraw_ModF29(s, e, t) == WithdrawX(s, e, t, TRUE)
 
 (* C07 frame: nothing is minted or burnt, deposits move only between the owner
    and the deposit escrow and by exactly the stated amount, third parties are
@@ -717,18 +863,20 @@ C07_Frame(s, e, t) ==
       add == IF e.amt > 0 THEN e.amt ELSE 0
   IN
   /\ t.supply = s.supply
-  /\ SumOver([a \in DOMAIN t.bal |-> BalOf(t, a)], DOMAIN t.bal)
-       = SumOver([a \in DOMAIN s.bal |-> BalOf(s, a)], DOMAIN s.bal)
+  /\ \A d \in DenomsOf(t) :
+       SumOver([a \in DOMAIN t.bal |-> BalD(t, a, d)], DOMAIN t.bal)
+         = SumOver([a \in DOMAIN s.bal |-> BalD(s, a, d)], DOMAIN s.bal)
   /\ (e.name # "EndBlock") => \A b \in Bindings(t) \ {me} : dep(t, b) = dep(s, b)
   /\ (e.name \in {"Bind", "UpdateBinding", "Enable"} /\ e.ok) =>
        /\ dep(t, me) = dep(s, me) + add
        /\ Delta(s, t, e.who) = 0 - add /\ Delta(s, t, DEP) = add
-       /\ \A a \in DOMAIN t.bal \ {e.who, DEP} : Delta(s, t, a) = 0
+       /\ OthersSame(s, t, {<<e.who, D>>, <<DEP, D>>})
   /\ (e.name = "RefundDeposit" /\ e.ok) =>
        /\ dep(t, me) = 0
        /\ Delta(s, t, e.who) = dep(s, me) /\ Delta(s, t, DEP) = 0 - dep(s, me)
-       /\ \A a \in DOMAIN t.bal \ {e.who, DEP} : Delta(s, t, a) = 0
-  /\ (e.name \notin {"Bind", "UpdateBinding", "Enable", "RefundDeposit", "Respond", "Withdraw", "EndBlock"}) =>
+       /\ OthersSame(s, t, {<<e.who, D>>, <<DEP, D>>})
+  /\ (e.name \notin {"Bind", "UpdateBinding", "Enable", "RefundDeposit", "Respond", "Withdraw",
+                      "ModWithdrawAll", "EndBlock"}) =>
        t.bal = s.bal
 
 (* a rejected message changes nothing *)
@@ -745,6 +893,7 @@ C08_OneOutcome(s, e, t, g) ==
   /\ (e.name # "EndBlock") =>
        /\ t.active = s.active \ (IF e.name = "Respond" /\ e.ok THEN {e.req} ELSE {})
        /\ DOMAIN t.resp = DOMAIN s.resp \cup (IF e.name = "Respond" /\ e.ok THEN {e.req} ELSE {})
+                                        \cup ModuleAnswered(s, e)
   /\ (e.name = "EndBlock") =>
        /\ \A r \in s.active : r \in DOMAIN s.req =>
             ((s.req[r].expH = s.h) <=> (r \notin t.active))
@@ -887,10 +1036,125 @@ C13_OnceOnTime(s, e, t, g) ==
 C13_NoHalt(e) == ~e.halt
 
 -----------------------------------------------------------------------------
+(***************************************************************************)
+(* Diagnostic clauses (X07_ / X08_): behaviour the specification covers    *)
+(* beyond the listed properties.  Reported, never part of a verdict.       *)
+(***************************************************************************)
+BindOf(x, e) == x.bind[e.svc][e.prov]
+
+(* RefundServiceDeposit succeeds exactly from disabledAt + ArbitrationTimeLimit
+   + ComplaintRetrospect on, for the owner of a disabled binding with a deposit *)
+X07_RefundTiming(s, e, t) ==
+  (e.name = "RefundDeposit" /\ HasBind(s, e.svc, e.prov)) =>
+    LET b == BindOf(s, e) IN
+    e.ok <=> /\ e.who = b.owner /\ ~b.available /\ b.deposit > 0
+             /\ s.now >= b.disabledAt + s.params.wait
+             /\ BalOf(s, DEP) >= b.deposit
+
+(* enable / disable: availability, disabled time, deposit top-up *)
+X07_EnableDisable(s, e, t) ==
+  /\ (e.name = "Disable" /\ e.ok) =>
+       /\ BindOf(s, e).available /\ ~BindOf(t, e).available
+       /\ BindOf(t, e).disabledAt = s.now /\ BindOf(t, e).deposit = BindOf(s, e).deposit
+  /\ (e.name = "Enable" /\ e.ok) =>
+       /\ ~BindOf(s, e).available /\ BindOf(t, e).available /\ BindOf(t, e).disabledAt = 0
+       /\ BindOf(t, e).deposit = BindOf(s, e).deposit + (IF e.amt > 0 THEN e.amt ELSE 0)
+  /\ (e.name \in {"Disable", "Enable"} /\ e.ok) => e.who = BindOf(s, e).owner
+
+(* a binding that is (re)priced, topped up or enabled while available holds at
+   least max(base price * multiple, MinDeposit); a price in another denom needs
+   an exchange rate unless it is zero *)
+X07_MinDeposit(s, e, t) ==
+  (e.name \in {"Bind", "UpdateBinding", "Enable"} /\ e.ok /\ BindOf(t, e).available
+   /\ (e.name = "UpdateBinding" => (e.qos # 0 \/ e.amt > 0 \/ e.setp))) =>
+    /\ ~MinDepErr(s, BindOf(t, e))
+    /\ BindOf(t, e).deposit >= MinDep(s, BasePrice(s, BindOf(t, e)))
+
+(* only providers that are bound, available, fast enough and whose discounted
+   price converted to the base denom is within the fee cap get a request; the
+   recorded fee is the discounted price in the price denom *)
+X07_Eligible(s, e, t) ==
+  (e.name = "EndBlock") =>
+    \A r \in NewReqs(s, t) :
+      LET q == t.req[r]
+          c == t.ctx[q.ctx]
+      IN /\ HasBind(s, c.svc, q.provider)
+         /\ LET b == s.bind[c.svc][q.provider]
+                 vol == VolOf(s, c.svc, q.provider, c.consumer)
+             IN /\ b.available /\ b.qos <= c.timeout
+                /\ (b.pdenom # D) => ~NoRate(s)
+                /\ Exchanged(s, b, vol) <= c.feeCap
+                /\ q.fee = FeeOf(b, s.now, vol)
+                /\ q.fdenom = (IF q.fee = 0 THEN D ELSE b.pdenom)
+                /\ q.expH = s.h + c.timeout /\ q.reqH = s.h
+
+(* the owner-wide withdrawal (keeper entry point only) pays the owner tally and
+   deletes every tally of the owner's providers *)
+X07_WithdrawAll(s, e, t) ==
+  (e.name = "ModWithdrawAll" /\ e.ok) =>
+    LET to == Get(s.withdraw, e.who, e.who)
+        mine == {x[2] : x \in {y \in s.ownerProv : y[1] = e.who}}
+    IN /\ e.who \notin DOMAIN t.ownerEarned
+       /\ DOMAIN t.earned = DOMAIN s.earned \ mine
+       /\ \A d \in DenomsOf(t) :
+            /\ DeltaD(s, t, REQ, d) = 0 - OwnerEarnedOf(s, e.who, d)
+            /\ (to # REQ) => DeltaD(s, t, to, d) = OwnerEarnedOf(s, e.who, d)
+
+(* UpdateRequestContext: a given field replaces the stored one, an absent one
+   (0 / empty) keeps it; nothing else in the state changes — in particular no
+   queue entry, no batch state, no request *)
+X08_Update(s, e, t) ==
+  (e.name \in {"Update", "ModUpdate"} /\ e.ok /\ e.ctx \in DOMAIN s.ctx) =>
+    LET c == s.ctx[e.ctx]
+        isMod == c.module # "" /\ e.name = "ModUpdate"
+        c2 == [c EXCEPT !.feeCap = IF e.amt > 0 THEN e.amt ELSE @,
+                        !.providers = IF Len(e.provs) > 0 THEN e.provs ELSE @,
+                        !.timeout = IF e.timeout > 0 THEN e.timeout ELSE @,
+                        !.freq = IF e.freq > 0 THEN e.freq ELSE @,
+                        !.total = IF e.total # 0 THEN e.total ELSE @,
+                        !.threshold = IF isMod /\ e.thr > 0 THEN e.thr ELSE @]
+    IN /\ t = [s EXCEPT !.ctx[e.ctx] = c2]
+       /\ c.state # "completed"
+       /\ c2.freq >= c2.timeout /\ c2.timeout <= s.params.maxTimeout
+       /\ (e.total >= 1) => e.total >= c.batch
+       /\ (c.module # "") => c2.threshold <= Len(c2.providers)
+
+(* a call of the module service is answered by the module in the same message:
+   one request, one response (with an output iff a rate exists), nothing
+   active, nothing charged, the context completed *)
+X08_ModuleCall(s, e, t) ==
+  (e.name = "Call" /\ e.ok /\ e.svc = OSVC) =>
+    LET id == CtxId(s.seq + 1)
+        rid == ReqId(id, 1, 0) IN
+    /\ id \in DOMAIN t.ctx /\ t.ctx[id].state = "completed" /\ t.ctx[id].providers = <<OPROV>>
+    /\ rid \in DOMAIN t.req /\ rid \in DOMAIN t.resp /\ rid \notin t.active
+    /\ t.req[rid].provider = OPROV /\ t.req[rid].fee = 0
+    /\ t.resp[rid].out = ~NoRate(s)
+    /\ t.bal = s.bal /\ t.earned = s.earned /\ t.expQ = s.expQ
+
+(* a created context records exactly what was asked for; a repeated context
+   without a frequency repeats at its timeout, a one-shot has no frequency / total *)
+X08_Create(s, e, t) ==
+  (e.name \in {"Call", "ModCall"} /\ e.ok /\ ~(e.name = "Call" /\ e.svc = OSVC)) =>
+    LET id == CtxId(s.seq + 1) IN
+    /\ id \notin DOMAIN s.ctx /\ id \in DOMAIN t.ctx /\ t.seq = s.seq + 1
+    /\ LET c == t.ctx[id] IN
+       /\ c.consumer = e.who /\ c.svc = e.svc /\ c.providers = e.provs /\ c.feeCap = e.amt
+       /\ c.timeout = e.timeout /\ c.repeated = e.repeated /\ c.batch = 0 /\ c.bstate = "completed"
+       /\ c.freq = (IF e.repeated THEN (IF e.freq = 0 THEN e.timeout ELSE e.freq) ELSE 0)
+       /\ c.total = (IF e.repeated THEN e.total ELSE 0)
+       /\ c.module = (IF e.name = "ModCall" THEN MOD ELSE "")
+       /\ c.threshold = (IF e.name = "ModCall" THEN e.thr ELSE 0)
+       /\ (c.state = "running") <=> (<<s.h, id>> \in t.newQ)
+       /\ c.timeout >= 1 /\ c.timeout <= s.params.maxTimeout /\ c.feeCap >= 1
+       /\ e.svc \in DOMAIN s.defs
+
+-----------------------------------------------------------------------------
 (* Model-checking universe *)
 CONSTANTS Users, Consumers, Actors, MaxH, MaxCtx, InitBal,
           TaxNum, TaxDen, SlashNum, SlashDen, MaxTimeout, MinMult, MinDepP, Wait,
           FeeCaps, Timeouts, Freqs, Totals, RepeatedVals, Modules, BindOps,
+          MDenoms, InitBtc, RateN, RateD, RateVals,   \* denoms of the universe, btc per user, initial rate, SetRate choices
           SetupSpec,     \* sequence of [p, o, dep, price, tDisc, tStart, tEnd, vDisc, vVol, qos]
           ProvSeqs,      \* provider lists a consumer may name
           UpdateSpecs    \* set of [amt, timeout, freq, total, provs, thr]
@@ -899,14 +1163,14 @@ SVC == "s1"
 Accts == Users \cup {DEP, REQ, FEEP}
 
 Init0 ==
-  [h |-> 2, now |-> 1, seq |-> 0,
+  [h |-> 2, now |-> 1, seq |-> 0, rate |-> [n |-> RateN, d |-> RateD],
    params |-> [taxNum |-> TaxNum, taxDen |-> TaxDen, slashNum |-> SlashNum, slashDen |-> SlashDen,
                maxTimeout |-> MaxTimeout, minMult |-> MinMult, minDep |-> MinDepP, wait |-> Wait],
    defs |-> EmptyF, bind |-> EmptyF, owner |-> EmptyF, ownerProv |-> {}, withdraw |-> EmptyF,
    vol |-> EmptyF, ctx |-> EmptyF, req |-> EmptyF, active |-> {}, activeB |-> {}, resp |-> EmptyF,
    earned |-> EmptyF, ownerEarned |-> EmptyF, newQ |-> {}, expQ |-> {}, newH |-> EmptyF, expH |-> EmptyF,
-   bal |-> [a \in Accts |-> (D :> IF a \in Users THEN InitBal ELSE 0)],
-   supply |-> (D :> Cardinality(Users) * InitBal)]
+   bal |-> [a \in Accts |-> [d \in MDenoms |-> IF a \in Users THEN (IF d = D THEN InitBal ELSE InitBtc) ELSE 0]],
+   supply |-> [d \in MDenoms |-> Cardinality(Users) * (IF d = D THEN InitBal ELSE InitBtc)]]
 
 Init == st = Init0 /\ ev = NoEv /\ gh = GhostInit /\ hist = <<>>
 
@@ -983,12 +1247,16 @@ SetWithdraw ==
   /\ BindOps
   /\ \E o \in OwnersM, to \in Consumers \cup {"blocked"} : Step([E("SetWithdraw", o) EXCEPT !.to = to])
 
+WithdrawAll == Modules /\ \E o \in OwnersM : Step(E("ModWithdrawAll", o))
+SetRate == \E r \in RateVals : Step([E("SetRate", "") EXCEPT !.rn = r[1], !.rd = r[2]])
+
 EndBlock == st.h < MaxH /\ Step(E("EndBlock", ""))
 
 Next ==
   \/ Setup
   \/ /\ SetupDone(st)
-     /\ (Call \/ ModCall \/ Respond \/ Control \/ Update \/ BindingOps \/ Withdraw \/ SetWithdraw \/ EndBlock)
+     /\ (Call \/ ModCall \/ Respond \/ Control \/ Update \/ BindingOps \/ Withdraw \/ WithdrawAll \/ SetWithdraw
+         \/ SetRate \/ EndBlock)
 
 (* Named universes for the cfg files (cfg files cannot hold records) *)
 BSpec(p, o, dep, price, tDisc, tStart, tEnd, vDisc, vVol, qos) ==
@@ -1006,12 +1274,30 @@ SetupC == << BSpec("u1", "u1", 8, 4, 4, 0, 0, 4, 0, 1), BSpec("u2", "u2", 6, 3, 
 (* u2 priced 0btc: needs the (absent) exchange rate (was finding F20, fixed) *)
 SetupD == << BSpec("u1", "u1", 8, 4, 2, 0, 1000, 4, 0, 1),
              [pdenom |-> "btc"] @@ BSpec("u2", "u2", 6, 0, 4, 0, 0, 4, 0, 1) >>
+(* two providers of ONE owner, u2 priced in btc (exchange rate needed): fees and
+   tallies in two denoms — finding F29 *)
+SetupE == << BSpec("u1", "u1", 8, 4, 4, 0, 0, 4, 0, 1),
+             [pdenom |-> "btc"] @@ BSpec("u2", "u1", 4, 2, 4, 0, 0, 4, 0, 1) >>
+RateValsNone == {}
+RateValsE == { <<0, 1>>, <<1, 2>> }
+ProvSeqsE == { <<"u1", "u2">>, <<"u2">> }
 ProvSeqsA == { <<"u1">>, <<"u1", "u2">> }
 ProvSeqsB == { <<"u1">>, <<"u2", "u1">>, <<"u1", "u2">> }
 UpdateSpecsNone == {}
 UpdateSpecsA == { USpec(0, 0, 2, 0, <<>>, 0), USpec(2, 0, 0, 3, <<"u2">>, 0) }
 
 Spec == Init /\ [][Next]_vars
+
+(* Exploratory liveness (not in any tier; MC_Service_live.cfg): under weak fairness
+   of EndBlock every running repeated context below its total eventually issues
+   its next batch — or stops running / disappears / the height bound is reached *)
+LiveSpec == Init /\ [][Next]_vars /\ WF_vars(EndBlock)
+Awaiting(id, n) ==
+  /\ id \in DOMAIN st.ctx /\ st.ctx[id].repeated /\ st.ctx[id].state = "running"
+  /\ st.ctx[id].batch = n /\ (st.ctx[id].total < 0 \/ n < st.ctx[id].total)
+Live_NextBatch ==
+  \A k \in 1..MaxCtx : \A n \in 0..3 :
+    [](Awaiting(CtxId(k), n) => <>(~Awaiting(CtxId(k), n) \/ st.h >= MaxH))
 
 (* Generator *)
 Rejects(h) == Cardinality({i \in DOMAIN h : ~h[i].ok})
@@ -1031,6 +1317,8 @@ Inv_C07_RequestEscrow == C07_RequestEscrow(st)
    reaches a state, action properties on every transition *)
 Act_C07_RequestEscrow_ModF4 == [][C07_RequestEscrow_ModF4(st', gh')]_vars
 Inv_C07_OwnerTally == C07_OwnerTally(st)
+Act_C07_OwnerTally_ModF29 == [][C07_OwnerTally_ModF29(st', gh')]_vars
+Act_C07_Withdraw_ModF29 == [][C07_Withdraw_ModF29(st, ev', st')]_vars
 Inv_C13_QueueSound == C13_QueueSound(st)
 Inv_C13_QueueComplete == C13_QueueComplete(st)
 Act_C13_NoHalt == [][C13_NoHalt(ev')]_vars
@@ -1053,6 +1341,15 @@ Act_C08_Authority == [][C08_Authority(st, ev')]_vars
 Act_C08_Callback == [][C08_Callback(st, ev', st', gh')]_vars
 Act_C08_Funds == [][C08_Funds(st, ev', st')]_vars
 Act_C13_OnceOnTime == [][C13_OnceOnTime(st, ev', st', gh')]_vars
+
+Act_X08_ModuleCall == [][X08_ModuleCall(st, ev', st')]_vars
+Act_X07_RefundTiming == [][X07_RefundTiming(st, ev', st')]_vars
+Act_X07_EnableDisable == [][X07_EnableDisable(st, ev', st')]_vars
+Act_X07_MinDeposit == [][X07_MinDeposit(st, ev', st')]_vars
+Act_X07_Eligible == [][X07_Eligible(st, ev', st')]_vars
+Act_X07_WithdrawAll == [][X07_WithdrawAll(st, ev', st')]_vars
+Act_X08_Update == [][X08_Update(st, ev', st')]_vars
+Act_X08_Create == [][X08_Create(st, ev', st')]_vars
 
 (* VIEW for the exhaustive configs: ghosts and the last event are functions of
    the path *)
